@@ -248,6 +248,9 @@ impl WorkTokenizedBuffer {
     }
 
     pub(super) fn add_line(&mut self, byte_offset: ByteOffset, start: CharOffset) -> LineIdx {
+        #[cfg(feature = "verif")]
+        super::verif::tick_line();
+
         #[cfg(debug_assertions)]
         {
             debug_assert!(
@@ -268,6 +271,9 @@ impl WorkTokenizedBuffer {
         line: LineIdx,
         payload: Payload,
     ) {
+        #[cfg(feature = "verif")]
+        super::verif::tick_token();
+
         #[cfg(debug_assertions)]
         #[allow(clippy::indexing_slicing)]
         {
@@ -356,6 +362,9 @@ impl WorkTokenizedBuffer {
         line: LineIdx,
         payload: Payload,
     ) {
+        #[cfg(feature = "verif")]
+        super::verif::tick_token();
+
         #[cfg(debug_assertions)]
         #[allow(clippy::indexing_slicing)]
         {
